@@ -450,6 +450,15 @@ def gen_C03(rng, tier):
         pool.append(bytes(b))
         cases.append("mbiwalk " + hx(b))
         dist["regions_random"] += 1
+    # very many tags: n copies of one padded tag (n around 2^8 and 2^16: counters narrower than usize; depth of a
+    # recursion per tag); model side: the closed form proved in C03_big_walk / C03_big_run
+    big_tags = [E.tag(0x1337, b""), E.tag(1, b"hello\0"), E.tag(3, E.u32(0x1000) + E.u32(0x2000) + b"m\0"),
+                E.tag(21, E.u32(7)), E.tag(3, E.u32(5) + E.u32(5))]
+    for n in (0, 1, 2, 255, 256, 257, 4095, 65535, 65536, 65537, 70000) + ((150000, 1000000) if tier == "thorough" else ()):
+        for t in big_tags:
+            if 16 + n * len(t) < 2 ** 25:
+                cases.append("bigwalk %d %s" % (n, hx(t)))
+                dist["many_tags"] = dist.get("many_tags", 0) + 1
     # iterator histories
     n_hist = 6000 if tier == "thorough" else 200
     for _ in range(n_hist):
